@@ -46,7 +46,17 @@ func Tag(i int) string { return tags[i%len(tags)] }
 
 func NewRec(i int) *Rec { return &Rec{Idx: i, Caller: Tag(i)} }
 
-func (r *Rec) addLog(s string)   { r.mu.Lock(); r.Log = append(r.Log, s); r.mu.Unlock() }
+// Trace, when set (scheduler runs only), is told which caller executed a body: the shape of the interleaving.
+var Trace func(caller string)
+
+func (r *Rec) addLog(s string) {
+	r.mu.Lock()
+	r.Log = append(r.Log, s)
+	r.mu.Unlock()
+	if Trace != nil {
+		Trace(r.Caller)
+	}
+}
 func (r *Rec) addOpt(s string)   { r.mu.Lock(); r.Opts = append(r.Opts, s); r.mu.Unlock() }
 func (r *Rec) addEvent(s string) { r.mu.Lock(); r.Events = append(r.Events, s); r.mu.Unlock() }
 
@@ -103,9 +113,24 @@ func (o *Object) Call(r *Rec, paradigm string) {
 	r.mu.Unlock()
 }
 
-// Kinds lists the object kinds, simplest first.
-func Kinds() []string {
-	return []string{"pregel-state-branch", "dag-fanout", "workflow-map", "nested", "react", "react-rd", "host"}
+// Kinds lists the object kinds, simplest first. all adds the kinds that are too expensive for the quick tier.
+func Kinds(all bool) []string {
+	k := []string{"pregel-state-branch", "workflow-map", "nested", "react", "react-rd", "host", "dag-fanout"}
+	if all {
+		k = append(k, "workflow-fanin")
+	}
+	return k
+}
+
+// Describe tells which paradigms a kind offers and whether its runs have intra-run parallelism.
+func Describe(kind string) (paradigms []string, par bool) {
+	switch kind {
+	case "react", "react-rd", "host":
+		return []string{"invoke", "stream"}, false
+	case "dag-fanout", "workflow-fanin":
+		return valParadigms, true
+	}
+	return valParadigms, false
 }
 
 // Build constructs and compiles a fresh object of the given kind.
@@ -116,7 +141,9 @@ func Build(kind string) (*Object, error) {
 	case "dag-fanout":
 		return buildDag()
 	case "workflow-map":
-		return buildWorkflow()
+		return buildWorkflow(false)
+	case "workflow-fanin":
+		return buildWorkflow(true)
 	case "nested":
 		return buildNested()
 	case "react":
